@@ -12,7 +12,14 @@ pub struct C06;
 fn plant(t: &mut Tape, r: &mut Rule, z: &str) {
     let lit = || El::Ipa { text: z.to_string(), params: None };
     match &mut r.input {
-        Side::Terms(terms) => for term in terms.iter_mut() { let i = t.pick(term.len() + 1); term.insert(i, lit()); },
+        Side::Terms(terms) => for (j, term) in terms.iter_mut().enumerate() {
+            // an insertion alternative of a mixed condensed rule has no input to plant in: its own environment gets the literal
+            if matches!(term.first(), Some(El::Ipa { text, .. }) if text == "*") {
+                if let Some(EnvSpec::List(items)) = &mut r.context { if let Some(EnvItem::One(e)) = items.get_mut(j) { if t.chance(1, 2) { e.before.insert(0, lit()); } else { e.after.push(lit()); } continue } }
+                return
+            }
+            let i = t.pick(term.len() + 1); term.insert(i, lit());
+        },
         _ => {
             // insertion: every environment of the context gets the literal on one side
             let plant_env = |t: &mut Tape, e: &mut Env| {
@@ -88,8 +95,10 @@ impl Property for C06 {
             let planted_in_struct = rule_kind(&r) != "insertion" && t.chance(1, 6) && plant_in_structure(t, &mut r, &z, &MWord::from_asca(&pw));
             if planted_in_struct { g.uses.insert("structure"); } else { plant(t, &mut r, &z); }
             let kind_of = |e: Option<&El>| match e { None => "none", Some(El::SBound) => "sbound", Some(El::WBound) => "wbound", Some(El::Struct { .. }) => "struct", Some(El::Syll { .. }) => "syll", Some(El::Opt { .. }) => "opt", Some(El::Ellipsis) => "ellipsis", Some(El::Set(_)) => "set", Some(_) => "seg" };
-            let (bl, af) = match &r.context { Some(EnvSpec::List(items)) => match items.first() { Some(EnvItem::One(e)) => (kind_of(e.before.last()), kind_of(e.after.first())), _ => ("?", "?") }, _ => ("?", "?") };
-            Some(json!({"rule": rule_text(&r), "word": word, "planted": z, "planted_seg": zseg.to_json(), "uses": g.uses.iter().collect::<Vec<_>>(), "kind": rule_kind(&r), "before_last": bl, "after_first": af}))
+            // (for a mixed condensed rule the insertion alternative and its environment are what the listed insertion findings are about)
+            let star = match &r.input { Side::Terms(ts) => ts.iter().position(|tm| matches!(tm.first(), Some(El::Ipa { text, .. }) if text == "*")), _ => None };
+            let (bl, af) = match &r.context { Some(EnvSpec::List(items)) => match items.get(star.unwrap_or(0)) { Some(EnvItem::One(e)) => (kind_of(e.before.last()), kind_of(e.after.first())), _ => ("?", "?") }, _ => ("?", "?") };
+            Some(json!({"rule": rule_text(&r), "word": word, "planted": z, "planted_seg": zseg.to_json(), "uses": g.uses.iter().collect::<Vec<_>>(), "kind": if star.is_some() { "insertion" } else { rule_kind(&r) }, "before_last": bl, "after_first": af}))
         });
     }
     fn check(&self, case: &Value) -> Outcome {
